@@ -220,7 +220,9 @@ func (m *ModulusBasic) modSqrtGeneric(out, x *Nat) ct.Bool {
 
 // ModSqrt sets out = sqrt(x) (mod m) if it exists.
 func (m *ModulusBasic) ModSqrt(out, x *Nat) ct.Bool {
-	if m.Nat().IsProbablyPrime() == ct.True {
+	// modSqrtPrime is for odd primes (saferith panics on an even modulus); 2 takes the generic route,
+	// where every residue is its own root
+	if m.Nat().IsOdd() == ct.True && m.Nat().IsProbablyPrime() == ct.True {
 		return m.modSqrtPrime(out, x)
 	} else {
 		return m.modSqrtGeneric(out, x)
